@@ -14,6 +14,7 @@ import (
 	"os"
 	"sort"
 	"strconv"
+	"strings"
 	"testing"
 
 	"github.com/XiaoMi/Gaea/internal/verifkit"
@@ -35,6 +36,52 @@ type rcRule struct {
 	Hs        *plHashSlice `json:"hs"`
 	Seed      int          `json:"seed"`
 	Vbt       int          `json:"vbt"`
+	Spell     string       `json:"spell"` // how textual lists are written: plain | sp-after | sp-before | sp-both | tab-after | outer | inner-and-outer
+}
+
+// rcSep writes a separator of a textual list (",", "-", ":") the way the configuration spells it.
+func rcSep(sep, spell string) string {
+	switch spell {
+	case "sp-after", "inner-and-outer":
+		return sep + " "
+	case "sp-before":
+		return " " + sep
+	case "sp-both":
+		return " " + sep + " "
+	case "tab-after":
+		return sep + "\t"
+	}
+	return sep
+}
+
+// rcWrap adds the blanks around a whole textual field.
+func rcWrap(text, spell string) string {
+	if spell == "outer" || spell == "inner-and-outer" {
+		return " " + text + " "
+	}
+	return text
+}
+
+func rcJoinInts(a []int, spell string) string {
+	s := make([]string, len(a))
+	for i, v := range a {
+		s[i] = strconv.Itoa(v)
+	}
+	return rcWrap(strings.Join(s, rcSep(",", spell)), spell)
+}
+
+func rcHashSlice(h *plHashSlice, spell string) string {
+	if h.Form == "single" {
+		return rcWrap(strconv.Itoa(h.A), spell)
+	}
+	a, b := "", ""
+	if h.A != plNone {
+		a = strconv.Itoa(h.A)
+	}
+	if h.B != plNone {
+		b = strconv.Itoa(h.B)
+	}
+	return rcWrap(a+rcSep(":", spell)+b, spell)
 }
 
 // a database name, or the list prefix[lo-hi] when lo is set
@@ -84,9 +131,9 @@ func rcShard(r *rcRule) *models.Shard {
 		Locations: r.Locations, Slices: r.Slices}
 	for _, d := range r.Databases {
 		if d.Lo == plNone {
-			s.Databases = append(s.Databases, d.Prefix)
+			s.Databases = append(s.Databases, rcWrap(d.Prefix, r.Spell))
 		} else {
-			s.Databases = append(s.Databases, fmt.Sprintf("%s[%d-%d]", d.Prefix, d.Lo, d.Hi))
+			s.Databases = append(s.Databases, rcWrap(fmt.Sprintf("%s[%d%s%d]", d.Prefix, d.Lo, rcSep("-", r.Spell), d.Hi), r.Spell))
 		}
 	}
 	if r.Type == "range" {
@@ -94,19 +141,19 @@ func rcShard(r *rcRule) *models.Shard {
 	}
 	for _, rg := range r.Ranges {
 		if rg.Lo == rg.Hi {
-			s.DateRange = append(s.DateRange, strconv.Itoa(rg.Lo))
+			s.DateRange = append(s.DateRange, rcWrap(strconv.Itoa(rg.Lo), r.Spell))
 		} else {
-			s.DateRange = append(s.DateRange, strconv.Itoa(rg.Lo)+"-"+strconv.Itoa(rg.Hi))
+			s.DateRange = append(s.DateRange, rcWrap(strconv.Itoa(rg.Lo)+rcSep("-", r.Spell)+strconv.Itoa(rg.Hi), r.Spell))
 		}
 	}
 	switch r.Type {
 	case "mycat_long":
-		s.PartitionCount, s.PartitionLength = joinInts(r.PCount), joinInts(r.PLength)
+		s.PartitionCount, s.PartitionLength = rcJoinInts(r.PCount, r.Spell), rcJoinInts(r.PLength, r.Spell)
 	case "mycat_string":
-		s.PartitionCount, s.PartitionLength = joinInts(r.PCount), joinInts(r.PLength)
-		s.HashSlice = renderHashSlice(r.Hs)
+		s.PartitionCount, s.PartitionLength = rcJoinInts(r.PCount, r.Spell), rcJoinInts(r.PLength, r.Spell)
+		s.HashSlice = rcHashSlice(r.Hs, r.Spell)
 	case "mycat_murmur":
-		s.Seed, s.VirtualBucketTimes = strconv.Itoa(r.Seed), strconv.Itoa(r.Vbt)
+		s.Seed, s.VirtualBucketTimes = rcWrap(strconv.Itoa(r.Seed), r.Spell), rcWrap(strconv.Itoa(r.Vbt), r.Spell)
 	}
 	return s
 }
